@@ -138,6 +138,36 @@ def directed(name, quick):
                         P.add(m, PB.W(3, 4), ref=hs[0], rt='FB')
                     P.act('Apply', m)
                     out.append(P.steps)
+    if name == 'twinblocks':
+        # a (repeated) block that begins with two parallel nested blocks on different qubits, one of them followed inside the
+        # block; unrolled / nested / copied, with and without the listing having been read before
+        import itertools
+        for rep, obs, route, order, dur in itertools.product((1, 2, 3), (None, 'full', 'ops'), ('Apply', 'AddSub', 'CopyCirc'), (0, 1), (4, 50)):
+            if route == 'Apply' and rep == 1:
+                continue
+            P = PB.Prog()
+            a = P.new()
+            P.add(a, PB.leaf('Rx180', [0], [[0, 'MICROWAVE']], ['global', 'MW']))
+            b = P.new()
+            P.add(b, PB.W(1, dur))
+            blk = P.new(rep=rep)
+            subs = [a, b] if order == 0 else [b, a]
+            na = [P.add_sub(blk, x) for x in subs]
+            P.add(blk, PB.leaf('Ry90', [0], [[0, 'MICROWAVE']], ['global', 'MW']))
+            top = P.new()
+            P.add(top, PB.W(0, 2))
+            P.add_sub(top, blk)
+            if obs:
+                P._step(a='Obs', c=top, what=obs)
+            if route == 'Apply':
+                P.act('Apply', top)
+            elif route == 'CopyCirc':
+                P.copy(top)
+            else:
+                outer = P.new()
+                P.add(outer, PB.W(2, 2))
+                P.add_sub(outer, top)
+            out.append(P.steps)
     if name == 'twinops':
         # equal-valued operations (same kind, same qubit, no relation of their own) at the top level and at the head of a nested
         # block, an explicit relation to the top-level one, then the circuit is copied / nested -- with and without the listing
@@ -214,11 +244,11 @@ SOURCES = {
     'C01': ('flat', 'nest', 'chan', 'deep', 'unroll2', 'unroll3', 'sim', 'repotests', 'library'),
     'C02': ('flat', 'nest', 'chan', 'deep', 'obsnest', 'sim', 'repotests', 'library'),
     'C04': ('flat', 'nest', 'nest0', 'sim', 'repotests'),
-    'C05': ('kinds', 'copyapplied', 'twinops', 'nest', 'sim'),
-    'C06': ('unroll', 'unroll2', 'unroll3', 'nest', 'sim', 'library'),
+    'C05': ('kinds', 'copyapplied', 'twinops', 'twinblocks', 'nest', 'sim'),
+    'C06': ('unroll', 'unroll2', 'unroll3', 'twinblocks', 'nest', 'sim', 'library'),
     'C07': ('acq', 'acqdir', 'sim'),
     'C11': ('flatten', 'flatdir', 'sim', 'library'),
-    'C03': ('hist', 'plothist', 'acq', 'acqdir', 'twinops', 'obsnest', 'sim'),
+    'C03': ('hist', 'plothist', 'acq', 'acqdir', 'twinops', 'twinblocks', 'obsnest', 'sim'),
     'C08': ('kinds', 'export', 'sim', 'library'),
     'C18': ('drawkinds', 'drawhist', 'drawnest'),
     'C15': ('kinds', 'export', 'qldir'),
@@ -231,6 +261,8 @@ def programs_for(pid, tier, seed):
     quick = tier == 'quick'
     out = []
     want = SOURCES[pid]
+    if os.environ.get('VERIF_ONLY_SOURCES'):           # development aid: restrict to some sources (never set by registered commands)
+        want = tuple(x for x in want if x in os.environ['VERIF_ONLY_SOURCES'].split(','))
 
     def g(name, menu, cap=None, keep=None, **kw):
         if name not in want:
@@ -322,7 +354,7 @@ M_Init == /\\ heap = DoNewCircuit(DoAddOp(DoNewCircuit(<<>>, "n1", NoLink, <<"fi
       reps=[('fixed', 2), ('fixed', 3)], acts=('NewCircuit', 'AddOp', 'AddSub', 'Apply'), linktypes=(), max_circs=2, max_objs=8,
       max_steps=6 if quick else 7, workers=8, min_emit=6, timeout=120, cap=1500 if quick else 20000,
       keep=lambda p: p[-1]['a'] == 'Apply' and any(s['a'] == 'AddSub' for s in p))
-    for dn in ('flatdir', 'copyapplied', 'qldir', 'acqdir', 'unroll3', 'twinops'):
+    for dn in ('flatdir', 'copyapplied', 'qldir', 'acqdir', 'unroll3', 'twinops', 'twinblocks'):
         if dn in want:
             out.append({'name': dn, 'programs': directed(dn, quick), 'generated': 0, 'tlc_states': 0, 'tlc_generated': 0, 'mode': 'directed family (python)'})
             out[-1]['generated'] = len(out[-1]['programs'])
@@ -419,7 +451,7 @@ def validate(traces, nchunks=14):
                 raise common.MachineryError('trace validation wrote no verdict:\n' + common.tail(r.out, 40))
         except common.MachineryError as e:
             if len(ch) == 1:
-                UNINTERPRETABLE.append((ch[0], str(e)[-600:]))
+                UNINTERPRETABLE.append((ch[0], str(e)[-6000:]))
                 return [], 0, 0, 0
             h = len(ch) // 2
             a = run_chunk(k, ch[:h], depth + 1)
@@ -477,6 +509,8 @@ def counts_for(pid, clause, trace):
         return True                     # an operation FOLLOWED_BY a block starts when the block (all of it) has ended
     if pid == 'C06' and clause in ('C01.eq.multi',):
         return True                     # chain rule: copy k+1 starts when the latest relation leaf before it has ended
+    if pid == 'C06' and clause.startswith('C01.eq.') and any(e['ev'] == 'Apply' for e in trace):
+        return True                     # the n copies are copies: inside each, every operation sits where its relation puts it
     if pid == 'C11' and clause in ('C02.complete', 'C02.attrs') and any(e['ev'] == 'Flatten' for e in trace):
         return True
     return False
@@ -566,7 +600,8 @@ def run(pid, tier):
     })
     if uninterp:
         v.notes.append('UNINTERPRETABLE traces (TLC could not evaluate them): %s' % [good[i] for i, _ in uninterp][:10])
-        if not v.failures:
+        sigs = set(x for k in v.known for x in k['signatures'])
+        if all(f['signature'] in sigs for f in v.failures):      # nothing new to report: then this is the result (exit 2)
             raise common.MachineryError('TLC could not evaluate %d recorded trace(s); first: %s' % (len(uninterp), uninterp[0][1]))
     v.assumptions += ['the recorder (harness/tracer.py) projects the real objects faithfully',
                       'durations are multiples of 1/4 time unit (integer arithmetic in TLC)']
@@ -625,6 +660,68 @@ def twin_trigger(trace, upto, c=None):
     return False
 
 
+def sibling_twins(trace, upto):
+    """Trigger class of the value-equal SIBLING blocks defect (same root cause as twin_trigger: blocks compare by value):
+    two blocks next to each other in one block, both without a relation of their own and with equal repetition terms, were
+    listed through an enclosing circuit x (reading the listing hands both the same relation object, after which they are equal
+    keys in the copy lookup), and afterwards x was copied (nested, copied or unrolled).  Returns the set of such twin blocks
+    (ids at the time of the listing, plus the ids of their copies made afterwards)."""
+    comps, out, pending = {}, set(), []
+    for k, e in enumerate(trace[:upto]):
+        ev = e['ev']
+        if ev == 'NewCircuit':
+            comps[e['c']] = [e['rep'], e['link']['k'] != 'none', '']
+        elif ev in ('AddSub', 'CopyCirc', 'Adopt'):
+            for i, r in (e.get('recs') or {}).items():
+                if r.get('t') == 'comp':
+                    home = (e.get('tree') or {}).get(i, {}).get('home', '')
+                    comps[i] = [r['rep'], (e.get('links') or {}).get(i, {'k': 'none'})['k'] != 'none', home]
+            if ev == 'AddSub' and e['id'] in comps:
+                comps[e['id']][2] = e['c']
+                comps[e['id']][1] = e['after']['k'] != 'none'
+        if ev == 'Obs' and not e.get('final'):
+            x = e['c']
+
+            def inside(i):
+                seen = 0
+                while i and seen < 1000:
+                    if i == x:
+                        return True
+                    i = comps.get(i, [None, None, ''])[2]
+                    seen += 1
+                return False
+            tw = set()
+            for i, v in comps.items():
+                for j, w in comps.items():
+                    if i != j and v[2] and v[2] == w[2] and not v[1] and not w[1] and v[0] == w[0] and inside(v[2]):
+                        tw.add(i)
+            if tw:
+                pending.append((x, tw))
+        if (ev == 'Apply') or (ev in ('AddSub', 'CopyCirc') and e.get('s')):
+            src = e['c'] if ev == 'Apply' else e['s']
+            for x, tw in pending:
+                if x == src:
+                    out |= tw
+                    # copies made by this event
+                    for pair in (e.get('cmap') or []):
+                        if pair[1] in tw:
+                            out.add(pair[0])
+                    for n in (e.get('new') or []):
+                        if n.get('origin') in tw or n.get('from') in tw:
+                            out.add(n['id'])
+    return out
+
+
+def refers_to_twin(f, trace):
+    """The failing object's relation (in the source, as expected, or as reported) points at one of the twin sibling blocks."""
+    tw = sibling_twins(trace, f['l'])
+    if not tw:
+        return False
+    import re
+    ids = set(re.findall(r'"(o\d+)"', f['info']))
+    return bool(ids & tw)
+
+
 def signature(f, ev, trace, prog):
     """Signature used to match a failure against KNOWN_FINDINGS.json (None = never known)."""
     cl = f['clause']
@@ -646,6 +743,8 @@ def signature(f, ev, trace, prog):
             ('<<-1,' in f['info'] or cl in ('C07.monotone', 'C07.filter.qubit', 'C07.filter.tag', 'C07.partition')):
         if twin_trigger(trace, f['l'] - 1):
             return 'twin-circuit-registry'
+    if cl in ('C05.iso.link', 'C01.eq.FB', 'C01.eq.JS', 'C01.eq.JE') and refers_to_twin(f, trace):
+        return 'sibling-twin-blocks-relinked'
     if cl == 'C01.frame' and ev.get('ev') == 'Obs':
         snap = ev['snap']
         o = snap['leaves'].get(f['obj']) or snap['comps'].get(f['obj'])
@@ -723,6 +822,34 @@ def erasure(v, programs, traces, prefix='C03.erasure'):
             elif cl in ('C03.erasure.index', 'C03.erasure.indices', 'C03.erasure.export') and twin_trigger(ta, len(ta)) and \
                     any(lf['acq_c'] == -1 for sn in list(fa.values()) + list(fb.values()) for lf in sn['leaves'].values()):
                 sig = 'twin-circuit-registry'          # the twin defect loses the registry: index -1 (a stale index is something else)
+            elif cl in ('C03.erasure.time', 'C03.erasure.block', 'C03.erasure.operation') and sibling_twins(ta, len(ta)):
+                # the run with the listing read differs from the run without it: known if every ROOT of the difference (an
+                # operation whose own start differs although everything its relation refers to agrees) is a follower of a
+                # twin sibling block -- the rest of the differences are consequences further down the relation chains
+                tw = sibling_twins(ta, len(ta))
+                roots, explained = 0, 0
+                for cid, sa in fa.items():
+                    sb = fb.get(cid)
+                    if not sb:
+                        continue
+                    def rec(sn, x):
+                        return sn['leaves'].get(x) or sn['comps'].get(x)
+                    def differs(x):
+                        a, b = rec(sa, x), rec(sb, x)
+                        return bool(a and b and (a['start'] != b['start'] or a['end'] != b['end']))
+                    for lid, a in sa['leaves'].items():
+                        if not differs(lid):
+                            continue
+                        L = a['rlink']
+                        refs = [L['ref']] if L['k'] == 'one' else list(L['refs'])
+                        Lb = (rec(sb, lid) or a)['rlink']
+                        refs_b = [Lb['ref']] if Lb['k'] == 'one' else list(Lb['refs'])
+                        if any(differs(r) for r in refs) and refs == refs_b:
+                            continue                  # consequence
+                        roots += 1
+                        explained += bool(set(refs + refs_b) & tw)
+                if roots and roots == explained:
+                    sig = 'sibling-twin-blocks-relinked'
             v.fail(cl.replace('C03.erasure', prefix), {'trace': i, 'obj': obj}, signature=sig, replay={'program': programs[i], 'erased': erased[f['row'] - 1]})
     return {'twin_histories': len(rows), 'tlc_states': r.distinct, 'rejected_pairs': len(res['fails'])}
 
